@@ -870,8 +870,15 @@ class Polyhedron(Shape3D):
         # Handle zeros q vector cases up front to allow looping over faces without
         # double checking internally.
         q_sqs = np.sum(q * q, axis=-1)
-        zero_q = np.isclose(q_sqs, 0)
-        form_factor[zero_q] = self.volume
+        # For (nearly) vanishing q the sum over faces below cancels
+        # catastrophically, so the expansion about the centroid is used instead
+        # (accurate to second order in |q| * size; the threshold is relative to
+        # the size of the polyhedron).
+        size = np.max(np.ptp(self.vertices, axis=0))
+        zero_q = q_sqs * size**2 < 4e-8
+        form_factor[zero_q] = self.volume * np.exp(
+            -1j * np.dot(q[zero_q], self.centroid)
+        )
 
         for face, eqn in zip(self.faces, self._equations):
             # Calculate each face's form factor as a polygon. This implementation aims
@@ -890,6 +897,7 @@ class Polyhedron(Shape3D):
                 qs_dot_norm * (1j * face_form_factors * exp_qr)
             ) / q_sqs[~zero_q]
 
+        form_factor *= density
         return form_factor
 
     def is_inside(self, points):
